@@ -130,6 +130,8 @@ type c04rObs struct {
 	Verdicts  []string   `json:"verdicts"`
 	Open      int64      `json:"open"`
 	InUse     int        `json:"inuse"`
+	InjAt     int        `json:"injected_call"`
+	IDs       []int64    `json:"ids"`
 }
 
 func (c *c04rCase) batches() int {
@@ -316,8 +318,8 @@ func (w *c04rWorld) resetAll() error {
 	return w.resetForms()
 }
 
-func (w *c04rWorld) dumpAll() []string {
-	rows, _ := w.dumpForms()
+func (w *c04rWorld) dumpAll() ([]string, []int64) {
+	rows, ids := w.dumpForms()
 	w.rec.mu.Lock()
 	w.rec.Off = true
 	w.rec.mu.Unlock()
@@ -339,17 +341,21 @@ func (w *c04rWorld) dumpAll() []string {
 			rows = append(rows, f(a, b, s))
 		}
 	}
-	q("SELECT id, n, code FROM c04r_items ORDER BY id", func(a, b int64, s string) string { return fmt.Sprintf("ritem %d code=%s n=%d", a, s, b) })
+	q("SELECT id, n, code FROM c04r_items ORDER BY id", func(a, b int64, s string) string {
+		ids = append(ids, 5000+a) // the model's row identity of an item
+		return fmt.Sprintf("ritem %d code=%s n=%d", a, s, b)
+	})
 	q("SELECT id, item_id, tag FROM c04r_subs ORDER BY id", func(a, b int64, s string) string { return fmt.Sprintf("rsub %d item=%d tag=%s", a, b, s) })
 	q("SELECT id, 0, name FROM c04r_boxes ORDER BY id", func(a, b int64, s string) string { return fmt.Sprintf("rbox %d name=%s", a, s) })
-	return rows
+	sort.Slice(ids, func(i, j int) bool { return ids[i] < ids[j] })
+	return rows, ids
 }
 
 // two more plain forms on the compound's own table
-var c04rItemPre = c04fForm{"item-pre", func(h *gorm.DB) error { return h.Create(&C04rItem{ID: 50, Code: "pre50"}).Error }, nil}
+var c04rItemPre = c04fForm{"item-pre", func(h *gorm.DB) error { return h.Create(&C04rItem{ID: 50, Code: "pre50"}).Error }, []c04fStmt{c04fW(c04fCE, 5050)}}
 var c04rItemPost = c04fForm{"item-post", func(h *gorm.DB) error {
 	return h.Model(&C04rItem{}).Where("id = ?", 2).Update("n", 9).Error
-}, nil}
+}, []c04fStmt{c04fW(c04fUE, 0)}}
 var c04rInner2 = c04fForm{"inner2", func(h *gorm.DB) error { return h.Create(&C04rItem{ID: 51, Code: "inner51"}).Error }, nil}
 
 // ---------------------------------------------------------------- run
@@ -360,10 +366,13 @@ type c04rSuite struct {
 	worlds map[c04Cfg]*c04rWorld
 	ref    *c04rWorld
 	refs   map[string][]string
+	refIDs map[string][]int64
+	cases  []*c04rCase
+	obs    []*c04rObs
 }
 
 func c04rNewSuite(r *Result) *c04rSuite {
-	s := &c04rSuite{r: r, forms: map[string]c04fForm{}, worlds: map[c04Cfg]*c04rWorld{}, refs: map[string][]string{}}
+	s := &c04rSuite{r: r, forms: map[string]c04fForm{}, worlds: map[c04Cfg]*c04rWorld{}, refs: map[string][]string{}, refIDs: map[string][]int64{}}
 	for _, f := range c04fForms() {
 		s.forms[f.Name] = f
 	}
@@ -409,14 +418,15 @@ func (s *c04rSuite) reference(names []string) ([]string, error) {
 			return nil, fmt.Errorf("reference run of %s: %v", n, err)
 		}
 	}
-	rows := s.ref.dumpAll()
+	rows, ids := s.ref.dumpAll()
 	s.refs[key] = rows
+	s.refIDs[key] = ids
 	return rows, nil
 }
 
 func (s *c04rSuite) exec(c *c04rCase) *c04rObs {
 	w := s.world(c.Cfg)
-	o := &c04rObs{}
+	o := &c04rObs{InjAt: -1}
 	if err := w.resetAll(); err != nil {
 		w.close()
 		*w = *c04rOpen(w.cfg)
@@ -447,6 +457,7 @@ func (s *c04rSuite) exec(c *c04rCase) *c04rObs {
 			if c.Mode == "inject" && n == c.At {
 				o.Calls[len(o.Calls)-1].Tok = "W!"
 				injected = true
+				o.InjAt = k
 				return &c04InjErr{k}
 			}
 		}
@@ -592,7 +603,7 @@ func (s *c04rSuite) exec(c *c04rCase) *c04rObs {
 		o.Verdicts = append(o.Verdicts, fmt.Sprintf("leak: %d driver transaction(s) open, %d connection(s) in use after the program", o.Open, o.InUse))
 		return o
 	}
-	o.Rows = w.dumpAll()
+	o.Rows, o.IDs = w.dumpAll()
 	return o
 }
 
@@ -686,7 +697,152 @@ func (s *c04rSuite) run(c *c04rCase) *c04rObs {
 	s.r.H("nestform_batches", fmt.Sprintf("%d of %d, failing %d", c.batches(), c.N, c.At))
 	s.r.H("nestform_compound_failed", fmt.Sprint(o.CErr != ""))
 	s.judge(c, o)
+	s.cases, s.obs = append(s.cases, c), append(s.obs, o)
+	if len(s.cases) >= 3000 {
+		s.flush()
+	}
 	return o
+}
+
+// ---------------------------------------------------------------- tie
+//
+// Model/TxForms.lean already has the item `FItem.nested fs out tag` = `_ = h.Transaction(func(tx2) error { fs; out })`. A
+// multi-batch CreateInBatches on a transaction handle IS that item with one multi-row INSERT form per batch (each `must`: callFc
+// returns the first batch error) and `out = return nil` — provided the wrap decision of finisher_api.go says "Transaction"
+// (regenerated: Gen.cibWrapDecision, theorem C04_batches_wrap_decision); a single batch is one form whose error the function
+// ignores. The same program runs on `runFProg`; compared: kinds of all driver calls (SAVEPOINT / INSERTs / ROLLBACK TO …), the
+// driver transaction of each, final row identities, result.
+func (s *c04rSuite) encode(c *c04rCase, o *c04rObs) (outer []interface{}, items []interface{}, ok bool) {
+	switch c.Kind {
+	case "cib", "cib-val", "cib-ptrs", "cib-array", "cib-maps", "batchsize-create", "explicit":
+	default:
+		return nil, nil, false
+	}
+	if c.Mode != "none" && c.Mode != "dup-pk" && c.Mode != "inject" {
+		return nil, nil, false
+	}
+	if c.Cfg.Dis || c.Cfg.Skip || c.Handle == "Session{SkipDefaultTransaction}" || !o.Ran {
+		return nil, nil, false
+	}
+	switch c.Site {
+	case "blk":
+		outer = []interface{}{"blk", 0, 77}
+	case "blk-err":
+		outer = []interface{}{"blk", 1, 77}
+	case "man":
+		outer = []interface{}{"man", 0}
+	default:
+		return nil, nil, false
+	}
+	ok = true
+	ops := func(names []string) []interface{} {
+		out := []interface{}{}
+		for _, n := range names {
+			f := s.forms[n]
+			if f.Stmts == nil {
+				ok = false
+				return out
+			}
+			var st []interface{}
+			for _, x := range f.Stmts {
+				st = append(st, x.enc())
+			}
+			out = append(out, []interface{}{st, true})
+		}
+		return out
+	}
+	its := c.items()
+	var batches []interface{}
+	wrap := c.Kind == "explicit" || c.batches() >= 2
+	for i := 0; i < len(its); i += c.BS {
+		e := i + c.BS
+		if e > len(its) {
+			e = len(its)
+		}
+		var ids []int64
+		for _, it := range its[i:e] {
+			ids = append(ids, 5000+it.ID)
+		}
+		batches = append(batches, []interface{}{[]interface{}{c04fW(c04fCE, ids...).enc()}, wrap})
+	}
+	items = []interface{}{[]interface{}{"ops", ops(c.Pre)}}
+	if wrap {
+		items = append(items, []interface{}{"nested", batches, 0, 78})
+	} else {
+		items = append(items, []interface{}{"ops", batches})
+	}
+	items = append(items, []interface{}{"ops", ops(c.Post)})
+	return outer, items, ok
+}
+
+func (s *c04rSuite) flush() {
+	r := s.r
+	var ops [][]interface{}
+	var idx []int
+	defer func() { s.cases, s.obs = nil, nil }()
+	if _, err := s.reference(nil); err != nil {
+		return
+	}
+	initIDs := s.refIDs[""]
+	for i, c := range s.cases {
+		o := s.obs[i]
+		outer, items, ok := s.encode(c, o)
+		if !ok || o.Open != 0 || o.InUse != 0 {
+			r.H("nestform_tie", "e2e-only")
+			continue
+		}
+		mask := []int{}
+		if o.InjAt >= 0 {
+			mask = []int{o.InjAt}
+		}
+		ops = append(ops, []interface{}{"tx.fprog", c.Cfg, mask, initIDs, outer, items})
+		idx = append(idx, i)
+	}
+	if len(ops) == 0 {
+		return
+	}
+	outs, err := AskLean(ops)
+	if err != nil {
+		r.Violate(Violation{Kind: "correspondence", Suite: "nestform", Note: err.Error()})
+		return
+	}
+	for j, i := range idx {
+		c, o := s.cases[i], s.obs[i]
+		r.CorrCompared++
+		r.H("nestform_tie", "compared")
+		var m struct {
+			Store []int64       `json:"store"`
+			Res   []interface{} `json:"res"`
+			Open  int64         `json:"open"`
+			Trace []string      `json:"trace"`
+			TxOf  []int         `json:"txof"`
+		}
+		if e := json.Unmarshal(outs[j], &m); e != nil {
+			r.Violate(Violation{Kind: "correspondence", Suite: "nestform", Input: c, Observed: o, Expected: string(outs[j]),
+				Note: "the model rejects the program"})
+			continue
+		}
+		var trace []string
+		var txof []int
+		for _, cl := range o.Calls {
+			trace = append(trace, cl.Tok)
+			txof = append(txof, cl.Ord)
+		}
+		res := "nil"
+		if len(m.Res) > 0 && (m.Res[0] == "err" || m.Res[0] == "panic") {
+			res = fmt.Sprint(m.Res[0])
+		}
+		ids := o.IDs
+		if ids == nil {
+			ids = []int64{}
+		}
+		real := map[string]interface{}{"trace": trace, "txof": txof, "ids": ids, "res": strings.SplitN(o.Res, ":", 2)[0], "open": o.Open}
+		model := map[string]interface{}{"trace": m.Trace, "txof": m.TxOf, "ids": m.Store, "res": res, "open": m.Open}
+		if canon(real) != canon(model) {
+			r.Violate(Violation{Kind: "correspondence", Suite: "nestform", Input: c, Observed: real, Expected: model,
+				Note: "CreateInBatches / Create+CreateBatchSize inside a transaction: real gorm vs Model/TxForms.lean runFProg with the compound as the nested-block item `FItem.nested` (wrap decision: regenerated Gen.cibWrapDecision) — driver-call kinds, driver transaction of every call, final row identities, result"})
+		}
+	}
 }
 
 func (c *c04rCase) normalise() bool {
@@ -722,7 +878,7 @@ func init() {
 		if json.Unmarshal(input, &sw) == nil && sw.Sweep != 0 {
 			t0 := time.Now()
 			c04rSweep(r, rand.New(rand.NewSource(sw.Sweep)), sw.Tier)
-			fmt.Printf("sweep: %d cases (%d non-trivial) in %v; %s\n", r.Evaluations, r.Nontrivial, time.Since(t0), canon(r.Hist["nestform_oracle"]))
+			fmt.Printf("sweep: %d cases (%d non-trivial) in %v; %s\n", r.Evaluations, r.Nontrivial, time.Since(t0), canon(r.Hist["nestform_oracle"])+canon(r.Hist["nestform_tie"]))
 			for i, v := range r.Violations {
 				if i < 5 {
 					fmt.Printf("VIOLATION %s\n  %s\n", canon(v.Input), v.Note)
@@ -738,6 +894,7 @@ func init() {
 		s := c04rNewSuite(r)
 		defer s.close()
 		o := s.run(&c)
+		s.flush()
 		fmt.Printf("replayed: %s\n", canon(o))
 	}
 }
@@ -839,5 +996,6 @@ func c04rSweep(r *Result, rng *rand.Rand, tier string) {
 				r.Sample(map[string]interface{}{"case": c, "real": o})
 			}
 		}
+		s.flush()
 	}
 }
